@@ -66,11 +66,11 @@ class UserAddNode(ActionGroup):
         time_key = tracks.features.time_key
         track_id_key = tracks.features.tracklet_key
 
-        if time_key not in attributes:
+        if attributes.get(time_key) is None:
             raise InvalidActionError(
                 f"Cannot add node without time. Please add {time_key} attribute"
             )
-        if track_id_key not in attributes:
+        if attributes.get(track_id_key) is None:
             raise InvalidActionError(
                 f"Cannot add node without track id. Please add {track_id_key} attribute"
             )
